@@ -24,7 +24,7 @@ func drawCuts(rt *rapid.T) string {
 func init() {
 	addArm("C01", "asa", func(rt *rapid.T, ev *evid.Collector) {
 		c := asaCase("C01", asam.GenPair(rt, asam.GenOpts{}))
-		judge(rt, ev, oracleC01asa, c, func() any { return c })
+		judge(rt, ev, oracles["C01/asa"], c, func() any { return c })
 	})
 	addArm("C08", "asa", func(rt *rapid.T, ev *evid.Collector) {
 		c := asaCase("C08", asam.GenPair(rt, asam.GenOpts{}))
